@@ -36,11 +36,41 @@ pub struct Run {
     pub stdout: String,
 }
 
+/// run one process under a 60 s watchdog (a diverging binary must not hang the check); stdout goes
+/// to a scratch file so that a large output cannot block the child
 pub fn run(inv: &Invocation) -> Run {
-    let o = Command::new(inv.bin).args(&inv.args).stdin(Stdio::null()).stderr(Stdio::null()).env("RUST_BACKTRACE", "0").output();
-    match o {
-        Ok(o) => Run { code: o.status.code(), stdout: String::from_utf8_lossy(&o.stdout).to_string() },
-        Err(e) => Run { code: None, stdout: format!("<spawn error {}>", e) },
+    static SEQ: std::sync::atomic::AtomicUsize = std::sync::atomic::AtomicUsize::new(0);
+    let k = SEQ.fetch_add(1, std::sync::atomic::Ordering::Relaxed);
+    let out_path = scratch_dir("c05out").join(format!("out_{}_{}.txt", std::process::id(), k));
+    let f = match std::fs::File::create(&out_path) {
+        Ok(f) => f,
+        Err(e) => return Run { code: None, stdout: format!("<scratch file error {}>", e) },
+    };
+    let child = Command::new(inv.bin).args(&inv.args).stdin(Stdio::null()).stderr(Stdio::null()).stdout(Stdio::from(f)).env("RUST_BACKTRACE", "0").spawn();
+    let mut child = match child {
+        Ok(c) => c,
+        Err(e) => return Run { code: None, stdout: format!("<spawn error {}>", e) },
+    };
+    let start = std::time::Instant::now();
+    let status = loop {
+        match child.try_wait() {
+            Ok(Some(st)) => break Some(st),
+            Ok(None) => {
+                if start.elapsed() > std::time::Duration::from_secs(60) {
+                    let _ = child.kill();
+                    let _ = child.wait();
+                    break None;
+                }
+                std::thread::sleep(std::time::Duration::from_millis(2));
+            }
+            Err(_) => break None,
+        }
+    };
+    let stdout = std::fs::read(&out_path).map(|b| String::from_utf8_lossy(&b).to_string()).unwrap_or_default();
+    let _ = std::fs::remove_file(&out_path);
+    match status {
+        Some(st) => Run { code: st.code(), stdout },
+        None => Run { code: None, stdout: format!("<no exit within 60 s> {}", stdout) },
     }
 }
 
